@@ -255,6 +255,8 @@ func render(v version) (map[string]string, map[string]int) {
 	w.l("", "option allow_alias = true;")
 	w.l("", "E_UNSPECIFIED = 0;")
 	w.l("", "E_ZERO_ALIAS = 0;")
+	// (always there: a reserved range of negative numbers, which enum values may have)
+	w.l("", "reserved -10 to -5;")
 	switch v["alias_state"] {
 	case "present":
 		w.l("enumvalue:E.1", "E_A = 1;")
